@@ -206,6 +206,52 @@ def ensure_harness(kinds, san=False):
     return ok, logs
 
 
+WB_KINDS = [0, 1, 2, 3]   # containers with a literal (L3) machine extracted for the white-box comparison
+
+
+def ensure_wb(kinds):
+    """harness/wb.cpp: dumps the real internal structures (private members opened in the harness TU only)"""
+    h = file_hash([os.path.join(ROOT, "harness", "wb.cpp"), os.path.join(ROOT, "harness", "common.hpp")]) + repo_hash()
+    bind = os.path.join(BUILD, "bin")
+    os.makedirs(bind, exist_ok=True)
+    procs = []
+    for k in kinds:
+        exe = os.path.join(bind, "wb_%d" % k)
+        stamp = exe + ".stamp"
+        if os.path.exists(exe) and os.path.exists(stamp) and open(stamp).read() == h:
+            continue
+        cmd = ["g++", "-std=c++17", "-O1", "-I" + os.path.join(REPO, "inc"), "-DKIND=%d" % k, os.path.join(ROOT, "harness", "wb.cpp")] + \
+              sorted(glob.glob(os.path.join(REPO, "src", "*.cpp"))) + ["-o", exe, "-pthread"]
+        procs.append((k, exe, stamp, subprocess.Popen(cmd, stdout=subprocess.PIPE, stderr=subprocess.STDOUT, text=True)))
+    ok, logs = True, ""
+    for (k, exe, stamp, p) in procs:
+        o, _ = p.communicate(timeout=900)
+        if p.returncode != 0:
+            ok = False
+            logs += "white-box harness for %s does not compile against the current headers (a private member was renamed or removed?):\n%s\n" % (KINDS[k], o[-2500:])
+            if os.path.exists(stamp):
+                os.remove(stamp)
+        else:
+            open(stamp, "w").write(h)
+    return ok, logs
+
+
+def run_wb(k, casefile, outdir):
+    exe = os.path.join(BUILD, "bin", "wb_%d" % k)
+    out = os.path.join(outdir, os.path.basename(casefile) + ".wb.out")
+    with open(out, "w") as fo:
+        try:
+            p = subprocess.run([exe, casefile], stdout=fo, stderr=subprocess.PIPE, text=True, timeout=900)
+            rc, err = p.returncode, p.stderr
+        except subprocess.TimeoutExpired:
+            rc, err = -9, "timeout"
+    rcd, o, e = sh([os.path.join(BUILD, "bin", "driver"), casefile, out, "--wb"], timeout=900)
+    diffs = [l for l in o.split("\n") if l.startswith("DIFF ")]
+    m = re.search(r"SUMMARY cases=(\d+) ok=(\d+) diff=(\d+) lines=(\d+)", o)
+    return dict(kind=k, crashed=(rc != 0), rc=rc, stderr=err[-3000:], diffs=diffs, ncases=int(m.group(1)) if m else 0,
+                nok=int(m.group(2)) if m else 0, nlines=int(m.group(4)) if m else 0)
+
+
 def run_kind(k, casefile, outdir, san=False):
     """run harness + driver on a case file; returns dict(ok, diffs[], ncases, nlines, crashed, stderr)"""
     exe = os.path.join(BUILD, "bin", "seq%s_%d" % ("_san" if san else "", k))
@@ -391,6 +437,23 @@ def sequential_part(prop, tier, seed, res):
     with ThreadPoolExecutor(max_workers=16) as ex:
         outs = list(ex.map(lambda j: run_kind(j[0], j[1], rundir, san=j[2]) if exes_ok(j[0], j[2]) else None, jobs))
     res["gen_stats"] = stats_all
+    if prop == "C08":
+        wbk = [k for k in kinds if k in WB_KINDS]
+        okw, lgw = ensure_wb(wbk)
+        if not okw:
+            res["broken"].append(dict(what="white-box harness build", detail=lgw[-3000:]))
+        wjobs = [(k, f) for (k, f, s_) in jobs if not s_ and k in wbk and os.path.exists(os.path.join(BUILD, "bin", "wb_%d" % k))]
+        with ThreadPoolExecutor(max_workers=8) as ex:
+            wouts = list(ex.map(lambda j: run_wb(j[0], j[1], rundir), wjobs))
+        wb = dict(cases=0, agree=0, lines=0, disagreements=0)
+        for (k, f), r in zip(wjobs, wouts):
+            wb["cases"] += r["ncases"]; wb["agree"] += r["nok"]; wb["lines"] += r["nlines"]; wb["disagreements"] += len(r["diffs"])
+            for d in r["diffs"]:
+                res["diffs"].append(dict(kind=KINDS[k], casefile=f, san=False, line="[white-box L3] " + d))
+            if r["crashed"]:
+                res["crashes"].append(dict(kind=KINDS[k], casefile=f, san=False, rc=r["rc"], stderr=r["stderr"]))
+        res["extra"]["white_box_L3"] = dict(containers=[KINDS[k] for k in wbk], **wb,
+                                            what="literal Coq machines vs the real list order, partition iterator, counters, stored back-pointers and index after every operation")
     for (k, f, s), r in zip(jobs, outs):
         if r is None:
             continue
